@@ -158,6 +158,8 @@ def _path(p):
     return tree.Key.SKIP
   if len(p) == 1 and p[0]['t'] == 'key':
     return p[0]['s']
+  if len(p) == 1 and p[0]['t'] == 'idx':
+    return tree.Key.Index(p[0]['i'])      # the bare shorthand (Index(0) is falsy: an int subclass)
   k = tree.Key()
   for e in p:
     k = k.at(e['s'] if e['t'] == 'key' else tree.Key.Index(e['i']))
